@@ -169,7 +169,14 @@ def beartype_type(
                 # class attribute of the currently decorated class whose value
                 # is that class (rather than as a nested class of the currently
                 # decorated class)...
-                not attr_value.__qualname__.startswith(cls.__qualname__)
+                #
+                # Note that the trailing "." is essential. A class declared
+                # elsewhere whose name merely *BEGINS* with the name of the
+                # currently decorated class (e.g., a global class
+                # "MuhClassHelper" referenced as a class attribute of a global
+                # class "MuhClass") is *NOT* nested in that class.
+                not attr_value.__qualname__.startswith(
+                    f'{cls.__qualname__}.')
             )
         ):
             # print(f'Decorating {repr(cls)} attribute "{attr_name}"...')
